@@ -210,3 +210,5 @@ type PointAlias = Point
 type StrAlias = "str"
 type JsonLike = "int | str | list[JsonLike]"
 IntAliasTE = t.TypeAliasType("IntAliasTE", int)
+IntValue = t.TypeAliasType("IntValue", int)
+RecAlias = t.TypeAliasType("RecAlias", "dict[str, RecAlias | IntValue]")
